@@ -1577,8 +1577,8 @@ func main() {
 	mon.Floor("cli:outcome:ok", 250)
 	mon.Floor("cli:dedup", 150)
 	mon.Floor("cli:compress", 80)
-	for _, md := range []string{"fasta", "phylip", "unaligned", "auto-fasta", "auto-phylip"} {
-		mon.Floor("cli:dedup:mode:"+md, 15)
+	for _, md := range []string{"fasta", "phylip", "unaligned", "auto-fasta", "auto-phylip", "clustal", "auto-clustal"} {
+		mon.Floor("cli:dedup:mode:"+md, 12)
 	}
 	for _, md := range []string{"fasta", "phylip", "auto-fasta", "auto-phylip"} {
 		mon.Floor("cli:compress:mode:"+md, 10)
@@ -1600,6 +1600,10 @@ func main() {
 	mon.Floor("cli:compress:merged", 30)
 	mon.Floor("cli:compress:several-alignments", 20)
 	mon.Floor("cli:compress:output:stdout", 8)
+	mon.Floor("concurrent:calls", 2000)
+	for _, s := range sums32 {
+		mon.Floor("collisions:"+s.name, 2)
+	}
 	mon.Main("C13", []mon.Sub{
 		{Name: "witness", Quick: len(witnesses), Thorough: len(witnesses), Run: runWitness},
 		{Name: "dedup", Quick: 150000, Thorough: 4000000, Run: runDedup},
@@ -1608,6 +1612,8 @@ func main() {
 		{Name: "exh-dedup", Quick: exhDedupCount / 2, Thorough: exhDedupCount, Run: runExhDedup},
 		{Name: "exh-compress", Quick: exhCompressCount(false), Thorough: exhCompressCount(true), Run: runExhCompress},
 		{Name: "long", Quick: 4, Thorough: 16, Run: runLong},
+		{Name: "collisions", Quick: 10, Thorough: 60, Run: runCollisions},
+		{Name: "concurrent", Quick: 96, Thorough: 1600, Race: true, Run: runConcurrent},
 		{Name: "cli", Quick: 330, Thorough: 3000, Serial: true, Run: runCli},
 	})
 }
